@@ -211,6 +211,21 @@ def process(mod, ctx, rep, case):
             mobs = ['model-error', str(e)[:200]]
             ctx.model = Model(getattr(mod, 'ORACLE', None))
         same = mod.same(impl, mobs) if hasattr(mod, 'same') else impl == mobs
+        if not same and getattr(mod, 'RETRY_DISAGREEMENT', False):
+            # implementations driven through threads, processes or sockets: a disagreement must reproduce on a second,
+            # fresh run of the same case before it counts (a deterministic fault always does)
+            if hasattr(mod, '_cache'):
+                mod._cache[0] = None
+            try:
+                impl2 = mod.impl(case)
+                mobs2 = mod.model(ctx.model, case)
+                same2 = mod.same(impl2, mobs2) if hasattr(mod, 'same') else impl2 == mobs2
+            except Exception:
+                same2 = False
+            if same2:
+                rep.count('disagreements_not_reproduced')
+                same = True
+                impl = impl2
         if not same:
             rep.disagree(case, impl, mobs)
         else:
@@ -476,6 +491,9 @@ def main(argv):
           % ('FAIL' if status else 'OK', prop, tier, seed, 'ok' if proof_ok else 'BROKEN', pr['discharged'],
              pr['obligations'], rep.evaluations, len(rep.nontrivial), len(rep.disagreements),
              len(new_violations), sum(known_hit.values()), time.time() - t0))
+    if status and disagreements:
+        for d in disagreements[:2]:
+            print('DISAGREEMENT ' + json.dumps(d, default=repr)[:1500])
     if harness_error and status:
         print(harness_error[-1500:])
     return status
